@@ -627,6 +627,8 @@ def _with_invariant(I, node, st, spec, inv, ordinal):
     s.pc.append(z3.And(k >= lo, k < n))
     if dk.get("formula") is not None:
         s.pc.append(dk["formula"])
+    for ax in dk.get("axiom_instances", ()):
+        s.pc.append(ax)
     if ctx.feasible(s.pc):
         for s1, c1 in I.assign(node.target, spec.elem(k), s):
             outs = [(s1, c1)] if c1[0] != "next" else I.exec_block(node.body, s1)
